@@ -41,6 +41,7 @@ var _ *grpc.ClientConn
 //@ ensures [C20 no-address-keeps-known-address] len(address) == 0 && old(has(this.addresses, id)) ==> this.addresses[id] == old(this.addresses[id])
 //@ ensures [C20 first-listing] !old(has(this.addresses, id)) ==> this.addresses[id] == address
 //@ ensures [others] forall j uint64 :: j != id ==> has(this.addresses, j) == old(has(this.addresses, j)) && this.addresses[j] == old(this.addresses[j])
+//@ ensures [connections-only-dropped] forall j uint64 :: has(this.conns, j) ==> old(has(this.conns, j)) && this.conns[j] == old(this.conns[j])
 //@ ensures [C20 changed-address-drops-the-connection] old(has(this.addresses, id)) && len(address) > 0 && old(this.addresses[id]) != address ==> !has(this.conns, id)
 //@ modifies map(this.addresses), map(this.conns)
 
@@ -48,6 +49,7 @@ var _ *grpc.ClientConn
 //@ props C20
 //@ requires [book] this.addresses != nil && this.conns != nil && forall j uint64 :: has(this.conns, j) ==> this.conns[j] != nil
 //@ ensures [unlisted] !has(this.addresses, id)
+//@ ensures [connections-only-dropped] forall j uint64 :: has(this.conns, j) ==> old(has(this.conns, j)) && this.conns[j] == old(this.conns[j])
 //@ ensures [C20 removed-node-has-no-connection] old(has(this.addresses, id)) ==> !has(this.conns, id)
 //@ ensures [others] forall j uint64 :: j != id ==> has(this.addresses, j) == old(has(this.addresses, j)) && this.addresses[j] == old(this.addresses[j])
 //@ modifies map(this.addresses), map(this.conns)
